@@ -161,6 +161,9 @@ let judge_op relaxed name args got =
          else [ "ok"; b (gen_RBig_is_zero gn gd); b (gen_RBig_is_one gn gd); b (gen_RBig_is_int gn gd) ] in
        expect ~extra:("asis=" ^ (if model = got then "same" else "diff")) (String.concat " " want) got
      | r, _ -> expect (res_s rat_s r) got)
+  | "fromi" | "fromu" ->
+    (* From<IBig/UBig/primitive>: the integer over one, which is canonical (C04_from_integer) *)
+    judge_exact rat_s (Ok (canon (a 0) Zar.one)) (Ok (from_int_asis (a 0))) got
   | "fromf32" | "fromf64" ->
     (* TryFrom<f32/f64>: args <bits>; decode (thin, here) then the Coq model from the decoded pair on.
        Both flavours must store the canonical pair (C04_from_float_exact_lowest_terms). *)
